@@ -11,7 +11,7 @@ theorem unoct_octDigit : ∀ d, d < 8 → unoct (octDigit d) = some d := by deci
 theorem octDigit_ne : ∀ d, d < 8 → octDigit d ≠ '"' ∧ octDigit d ≠ '\\' := by decide
 
 /-- The value of a well-formed item comes back from its written form (Go string-literal escapes). -/
-theorem unquote_dqItem (it : DqItem) (hok : it.ok = true) (hno : ∀ b, it ≠ .oct b) (tail : List Char) :
+theorem unquote_dqItem (it : DqItem) (hok : it.ok = true) (tail : List Char) :
     unquoteBody (it.write ++ tail) = (it.value ++ ·) <$> unquoteBody tail := by
   cases it with
   | ch c =>
@@ -25,7 +25,26 @@ theorem unquote_dqItem (it : DqItem) (hok : it.ok = true) (hno : ∀ b, it ≠ .
     simp only [DqItem.ok, decide_eq_true_eq] at hok
     simp only [DqItem.write, DqItem.value, List.cons_append]
     rw [unquote_hex2 b hok]; rfl
-  | oct b => exact absurd rfl (hno b)
+  | oct b =>
+    simp only [DqItem.ok, decide_eq_true_eq] at hok
+    simp only [DqItem.write, DqItem.value, List.cons_append, List.nil_append]
+    have h2 := unoct_octDigit (b / 8 % 8) (by omega)
+    have h3 := unoct_octDigit (b % 8) (by omega)
+    have e : (b / 64 % 8 * 8 + b / 8 % 8) * 8 + b % 8 = b := by omega
+    generalize octDigit (b / 8 % 8) = o2 at h2 ⊢
+    generalize octDigit (b % 8) = o3 at h3 ⊢
+    have h1 : b / 64 % 8 = 0 ∨ b / 64 % 8 = 1 ∨ b / 64 % 8 = 2 ∨ b / 64 % 8 = 3 := by omega
+    have u0 : unoct '0' = some 0 := by decide
+    have u1 : unoct '1' = some 1 := by decide
+    have u2 : unoct '2' = some 2 := by decide
+    have u3 : unoct '3' = some 3 := by decide
+    have hle : b ≤ 255 := by omega
+    rcases h1 with h | h | h | h <;> rw [h] at e ⊢ <;> simp only [octDigit, List.getD_cons_zero, List.getD_cons_succ] <;>
+      rw [unquoteBody] <;> first
+        | (intros; contradiction)
+        | (first | rw [u0, h2, h3] | rw [u1, h2, h3] | rw [u2, h2, h3] | rw [u3, h2, h3]
+           show (if _ then _ else _) = _
+           rw [e, if_pos hle])
   | u4 cp =>
     simp only [DqItem.ok, Bool.and_eq_true, decide_eq_true_eq] at hok
     obtain ⟨hlt, hv⟩ := hok
@@ -51,16 +70,14 @@ theorem unquote_dqItem (it : DqItem) (hok : it.ok = true) (hno : ∀ b, it ≠ .
     simp only [e, hok, if_true, runeBytes]
 
 /-- A double-quoted literal written from well-formed items unquotes to the bytes the items denote. -/
-theorem unquote_dqItems (items : List DqItem) (hok : ∀ it ∈ items, it.ok = true)
-    (hno : ∀ it ∈ items, ∀ b, it ≠ .oct b) :
+theorem unquote_dqItems (items : List DqItem) (hok : ∀ it ∈ items, it.ok = true) :
     unquote ('"' :: (items.flatMap DqItem.write ++ ['"'])) = some (items.flatMap DqItem.value) := by
   simp only [unquote]
   induction items with
   | nil => simp [unquoteBody]
   | cons it rest ih =>
     simp only [List.flatMap_cons, List.append_assoc]
-    rw [unquote_dqItem it (hok it (by simp)) (hno it (by simp)),
-      ih (fun x hx => hok x (by simp [hx])) (fun x hx => hno x (by simp [hx]))]
+    rw [unquote_dqItem it (hok it (by simp)), ih (fun x hx => hok x (by simp [hx]))]
     rfl
 
 end PV.C26
